@@ -75,7 +75,8 @@ type Result struct {
 	U        []uint64
 	B        []bool
 	Err      error
-	HasErr   bool // an error slot exists (even if nil)
+	ErrText  string // Err.Error() at the moment the call returned
+	HasErr   bool   // an error slot exists (even if nil)
 	X        []string
 	Viol     []string // violations noticed by the operation itself (input modified, ...)
 	Incons   []string // results of one operation that contradict each other
@@ -83,12 +84,20 @@ type Result struct {
 	keeps    []*keep
 }
 
-func (r *Result) dec(d ...D)            { r.D = append(r.D, d...) }
-func (r *Result) str(s string)          { r.S = append(r.S, s) }
-func (r *Result) int(i int64)           { r.I = append(r.I, i) }
-func (r *Result) uint(u uint64)         { r.U = append(r.U, u) }
-func (r *Result) bool(b bool)           { r.B = append(r.B, b) }
-func (r *Result) err(e error)           { r.Err = e; r.HasErr = true }
+func (r *Result) dec(d ...D)    { r.D = append(r.D, d...) }
+func (r *Result) str(s string)  { r.S = append(r.S, s) }
+func (r *Result) int(i int64)   { r.I = append(r.I, i) }
+func (r *Result) uint(u uint64) { r.U = append(r.U, u) }
+func (r *Result) bool(b bool)   { r.B = append(r.B, b) }
+func (r *Result) err(e error) {
+	r.Err = e
+	r.HasErr = true
+	if e != nil {
+		// an error value is a result like any other: what it says when it is
+		// returned must still be what it says later
+		r.ErrText = e.Error()
+	}
+}
 func (r *Result) extra(s string)        { r.X = append(r.X, s) }
 func (r *Result) violation(s string)    { r.Viol = append(r.Viol, s) }
 func (r *Result) inconsistent(s string) { r.Incons = append(r.Incons, s) }
@@ -182,7 +191,7 @@ func (r *Result) Key() string {
 		if r.Err == nil {
 			b.WriteString("err:nil;")
 		} else {
-			fmt.Fprintf(&b, "err:%s:%q;", ErrClass(r.Err), r.Err.Error())
+			fmt.Fprintf(&b, "err:%s:%q;", ErrClass(r.Err), r.ErrText)
 		}
 	}
 	for _, x := range r.X {
